@@ -239,7 +239,68 @@ func runC07(c *an.Ctx) {
 		}
 	}
 	c07LinkSizeCoupling(c, scope, fDag, fFile, nil)
+	c07DataReplacement(c, scope, fDag, fFile)
 	c07SizeProvenance(c, scope, nil)
+	c.Min("O2 Commit() calls", c07CommitAfterMutations(c, scope, nil), 6)
+
+	// O2: the whole stream is consumed: balanced layout functions return success only once the builder is drained
+	drains := map[*ssa.Function]bool{}
+	nDr := 0
+	for _, name := range []string{"layoutData", "Layout"} {
+		fn := p.Func(c07Bal, "", name)
+		if !c.Need(fn != nil, "balanced."+name) {
+			continue
+		}
+		nDr++
+		ok, esc := c07Drains(fn, drains)
+		pos := fn.Pos()
+		if esc != nil {
+			pos = esc.Pos()
+		}
+		if ok {
+			drains[fn] = true
+		}
+		c.Check(ok, "O2", "R-DOM", an.FuncName(fn), "success-return<=builder-drained", pos,
+			"success is returned only where db.Done() was tested true (or after a draining callee)",
+			"a success return is reachable while the splitter may still hold data (not guarded by db.Done() being true): the tail of the input is silently dropped from the file")
+	}
+	c.Min("O2 balanced layout functions", nDr, 2)
+
+	// O3: the leaf size limit of the importer is the block size limit of the chunker package
+	if hp := p.Pkg(c07H); hp != nil {
+		okLim := false
+		var pos token.Pos
+		if imp := hp.Imports[an.Mod+"/chunker"]; imp != nil && imp.Types != nil {
+			if k, ok := imp.Types.Scope().Lookup("BlockSizeLimit").(*types.Const); ok {
+				for _, fn := range p.PkgFuncs(c07H) {
+					if fn.Name() != "init" {
+						continue
+					}
+					an.Instrs(fn, func(in ssa.Instruction) {
+						st, ok := in.(*ssa.Store)
+						if !ok {
+							return
+						}
+						g, ok := st.Addr.(*ssa.Global)
+						if !ok || g.Name() != "BlockSizeLimit" {
+							return
+						}
+						pos = st.Pos()
+						if kv, ok := an.ConstOf(st.Val); ok && kv.ExactString() == k.Val().ExactString() {
+							okLim = true
+						}
+					})
+				}
+			}
+		}
+		if pos == token.NoPos {
+			if o := hp.Types.Scope().Lookup("BlockSizeLimit"); o != nil {
+				pos = o.Pos()
+			}
+		}
+		c.Check(okLim, "O3", "R-CONST", c07H, "BlockSizeLimit=chunker.BlockSizeLimit", pos,
+			"helpers.BlockSizeLimit is initialised with chunker.BlockSizeLimit", "helpers.BlockSizeLimit is not initialised with chunker.BlockSizeLimit: the importer accepts leaves the chunker limit (and the wire block limit) forbids")
+	}
 
 	// ---------------- O3: width guards
 	addChild := an.M(c07H, "FSNodeOverDag", "AddChild")
@@ -641,7 +702,20 @@ func c07SizeProvenance(c *an.Ctx, scope []*ssa.Function, only func(*ssa.Function
 							one = false
 						}
 					}
-					if !one {
+					// ... and it is taken after the last change of the node's children
+					if one {
+						for _, m := range an.Calls(fn, an.M(c07H, "FSNodeOverDag", "AddChild"), an.M(c07H, "FSNodeOverDag", "RemoveChild"), an.M(c07H, "DagBuilderHelper", "FillNodeLayer")) {
+							tgt := an.Recv(m)
+							if an.Callee(m).Name == "FillNodeLayer" {
+								tgt = an.Args(m)[0]
+							}
+							if (tgt == x || an.SameObj(tgt, x)) && an.Reaches(fn, fsz, m, nil, nil) && an.Reaches(fn, m, r, nil, nil) {
+								one = false
+								why = "FileSize() is read before " + an.Callee(m).Name + " changes the node's children (stale size)"
+							}
+						}
+					}
+					if !one && !strings.Contains(why, "stale size") {
 						why = "FileSize() is taken from " + an.PathOf(x) + ", not from the returned node"
 					}
 				} else if lc, isLen := sr.(*ssa.Call); isLen && an.Callee(lc).Builtin == "len" {
@@ -754,4 +828,144 @@ func c07FSNodeFilesize(c *an.Ctx) {
 		}
 	}
 	c.Min("O5 stores to Blocksizes/Data in FSNode methods", nO5, 4)
+}
+
+// ---------------------------------------------------------------------------
+// round 2 additions
+
+// c07DecodedFrom: fs is the FSNode view of proto node pn: the file field of the same FSNodeOverDag, or decoded in
+// fn from pn's own Data (FSNodeFromBytes(pn.Data()) / ExtractFSNode(pn)).
+func c07DecodedFrom(pn, fs ssa.Value, fDag, fFile *types.Var) bool {
+	if f, base := c07FieldLoad(pn); f == fDag && fDag != nil {
+		if f2, base2 := c07FieldLoad(fs); f2 == fFile && an.SameObj(base, base2) {
+			return true
+		}
+	}
+	for _, r := range an.Roots(fs, nil) {
+		if call, ok := an.IsCallTo(r, an.M(c07FT, "", "FSNodeFromBytes")); ok {
+			if dc, ok := an.IsCallTo(call.Call.Args[0], an.M(c07MD, "ProtoNode", "Data")); ok && (an.SameObj(an.Recv(dc), pn) || an.Recv(dc) == pn) {
+				return true
+			}
+		}
+		if call, ok := an.IsCallTo(r, an.M(c07FT, "", "ExtractFSNode")); ok {
+			pnRoots := map[ssa.Value]bool{pn: true}
+			for _, pr := range an.Roots(pn, nil) {
+				pnRoots[pr] = true
+			}
+			for _, ar := range an.Roots(call.Call.Args[0], nil) {
+				if pnRoots[ar] || an.SameObj(ar, pn) {
+					return true
+				}
+			}
+		}
+	}
+	return false
+}
+
+// c07DataReplacement (O1): the Data of an existing (possibly link-carrying) dag-pb node is replaced only by the
+// re-serialisation of the complete FSNode decoded from that very node; a rebuilt message would drop fields
+// (Blocksizes, mode, mtime ...).
+func c07DataReplacement(c *an.Ctx, scope []*ssa.Function, fDag, fFile *types.Var) {
+	n := 0
+	for _, fn := range scope {
+		for _, call := range an.Calls(fn, an.M(c07MD, "ProtoNode", "SetData")) {
+			pn := an.Recv(call)
+			if pn == nil || an.IsFresh(pn) {
+				continue // a node created here has no links yet
+			}
+			n++
+			arg := an.Args(call)[0]
+			gb, ok := an.IsCallTo(arg, an.M(c07FT, "FSNode", "GetBytes"))
+			okSrc := ok && c07DecodedFrom(pn, an.Recv(gb), fDag, fFile)
+			what := "a value that is not FSNode.GetBytes()"
+			if ok && !okSrc {
+				what = "the bytes of an FSNode that was not decoded from this node"
+			} else if cc, isCall := arg.(*ssa.Call); isCall {
+				what = an.Callee(cc).String() + "(...)"
+			} else if ex, isX := arg.(*ssa.Extract); isX {
+				if cc, isCall := ex.Tuple.(*ssa.Call); isCall && !ok {
+					what = an.Callee(cc).String() + "(...)"
+				}
+			}
+			c.Check(okSrc, "O1", "R-FLOW", an.FuncName(fn), "SetData<=GetBytes(FSNode-of-same-node)", call.Pos(),
+				"the node's Data is replaced by the re-serialised FSNode decoded from the same node (all fields survive)",
+				"the Data of an existing dag-pb file node is replaced by "+what+" instead of the re-serialisation of the FSNode decoded from that node: fields the new message does not carry (Blocksizes of an internal node, mode, mtime) are lost — links without recorded child sizes break Seek and the size invariants")
+		}
+	}
+	c.Min("O1 SetData on existing nodes", n, 3)
+}
+
+// c07CommitAfterMutations (O2): Commit() serialises the FSNode into the dag node; a child added/removed or data/metadata
+// set afterwards on the same FSNodeOverDag never reaches the stored node.
+func c07CommitAfterMutations(c *an.Ctx, scope []*ssa.Function, only func(*ssa.Function) bool) int {
+	muts := []an.Matcher{an.M(c07H, "FSNodeOverDag", "AddChild"), an.M(c07H, "FSNodeOverDag", "RemoveChild"), an.M(c07H, "FSNodeOverDag", "SetFileData"), an.M(c07H, "FSNodeOverDag", "SetMode"), an.M(c07H, "FSNodeOverDag", "SetModTime"), an.M(c07H, "DagBuilderHelper", "FillNodeLayer")}
+	n := 0
+	for _, fn := range scope {
+		if only != nil && !only(fn) {
+			continue
+		}
+		for _, cm := range an.Calls(fn, an.M(c07H, "FSNodeOverDag", "Commit")) {
+			x := an.Recv(cm)
+			n++
+			late := ""
+			for _, m := range an.Calls(fn, muts...) {
+				var tgt ssa.Value
+				if an.Callee(m).Name == "FillNodeLayer" {
+					tgt = an.Args(m)[0]
+				} else {
+					tgt = an.Recv(m)
+				}
+				if tgt == nil || !(tgt == x || an.SameObj(tgt, x)) {
+					continue
+				}
+				if an.Reaches(fn, cm, m, nil, nil) {
+					// a node re-created in each loop iteration is a different object: both calls must then lie in the cycle of its definition
+					if def, ok := x.(ssa.Instruction); ok && an.XBInCycle(def.Block()) && !an.Reaches(fn, cm, m, nil, map[ssa.Instruction]bool{def: true}) {
+						continue
+					}
+					late = an.Callee(m).Name
+				}
+			}
+			c.Check(late == "", "O2", "R-POST", an.FuncName(fn), "Commit-after-last-mutation", cm.Pos(),
+				"no child/data/metadata change of the node can follow its Commit()",
+				"FSNodeOverDag."+late+" can run after Commit() of the same node: the committed dag node keeps the FSNode bytes taken before that change (stale Blocksizes/Filesize/metadata)")
+		}
+	}
+	return n
+}
+
+// c07Drains: every success return of fn is reached only where db.Done() was tested true, or after a call to a
+// function already known to drain the same builder.
+func c07Drains(fn *ssa.Function, drains map[*ssa.Function]bool) (bool, *ssa.Return) {
+	var db ssa.Value
+	for _, p := range fn.Params {
+		if an.TypeIs(p.Type(), c07H, "DagBuilderHelper") {
+			db = p
+		}
+	}
+	if db == nil {
+		return false, nil
+	}
+	var doneCalls []ssa.Value
+	for _, call := range an.Calls(fn, an.M(c07H, "DagBuilderHelper", "Done")) {
+		if v := an.CallValue(call); v != nil && an.SameObj(an.Recv(call), db) {
+			doneCalls = append(doneCalls, v)
+		}
+	}
+	doneTrue := an.BoolEdges(fn, doneCalls, true)
+	blocked := map[ssa.Instruction]bool{}
+	for _, call := range an.AllCalls(fn) {
+		if g := an.Callee(call).Static; g != nil && drains[g] && g != fn {
+			blocked[call] = true
+		}
+	}
+	for _, r := range an.Returns(fn) {
+		if c07IsFailureReturn(fn, r) {
+			continue
+		}
+		if an.Reaches(fn, nil, r, doneTrue, blocked) {
+			return false, r
+		}
+	}
+	return true, nil
 }
